@@ -500,6 +500,9 @@ CustomShapes == <<
        CustCfg(<<KV("Root.Sub.Cust", "CustN"), KV("Root.Sub2.Cust", "CustM")>>, <<KV("CustN", "SufN")>>)),
   With("u.two", <<Msg("Root", <<NonNull(Custom(Fld("Cust", 1, "string"), "CustT")), Fld("Extra", 2, "bytes")>>, <<>>)>>,
        CustCfg(<<KV("Root.Extra", "CustX")>>, <<KV("CustT", "SufT")>>)),
+  \* custom types on MAP fields (of scalars and of messages): delegated like any other custom field
+  With("u.cfg.map", <<Msg("Root", <<MapOf(Fld("Tags", 1, "string")), MapOf(Fld("Fb", 2, "bool")), Fld("Str", 3, "string"), MapOf(Fld("Fa", 4, "int32"))>>, <<>>)>>,
+       CustCfg(<<KV("Root.Tags", "CustM"), KV("Root.Fb", "CustD")>>, <<KV("CustD", "SufD")>>)),
   \* two custom types which share their last name component: the suffixes entry of the bare one is not the other's
   With("u.cfg.samename", <<Msg("Root", <<Fld("Cust", 1, "string"), Fld("Extra", 2, "string"), Fld("Str", 3, "string")>>, <<>>)>>,
        CustCfg(<<KV("Root.Cust", "Traits"), KV("Root.Extra", "ext/wrappers.Traits"), KV("Root.Str", "wrappers.Traits")>>, <<KV("Traits", "LocalTraits")>>)) >>
